@@ -1,6 +1,919 @@
-//! C19 — harness module not built yet.
+//! C19 — trading cannot be scheduled past the governance offset or into the past.
+//!
+//! Every minter family (six vending minters through the shared sale world, three
+//! open-edition minters, the token-merge minter and the base minter through a small
+//! JSON-driven world of its own) is created through its factory with requested trading
+//! times none / now-1ns / now / mint start / bound-1ns / bound / bound+1ns / u64::MAX
+//! under ordinary, zero, maximal and overflowing governance offsets, then driven through
+//! UpdateStartTradingTime requests by admin / buyer / stranger, start-time moves, sudo
+//! offset changes, clock moves past the mint start and past the bound, a change of the
+//! collection's creator, and direct UpdateStartTradingTime calls on the collection, for
+//! sg721-base and sg721-updatable collections.
+//!
+//! Times in a case are SYMBOLIC (relative to the clock, the stored mint start and the
+//! offset the factory reports when the op is run), so a replay file re-runs exactly.
+//! Monitors are written from the property text and use checked u64 arithmetic on the
+//! Config.start_time and factory Params read right before each step.
+use crate::chain::{self, App};
+use crate::util::*;
+use crate::w_sale::{self, Op, SaleCfg, SaleWorld, BUYERS, CREATOR, STRANGER, VARIANTS};
 use crate::Args;
-pub fn run(_a: &Args) {
-    eprintln!("C19: harness module not built yet");
-    std::process::exit(2);
+use cosmwasm_std::{coin, Addr};
+use cw_multi_test::Executor;
+use serde::{Deserialize, Serialize};
+use serde_json::{json, Value};
+use std::collections::{BTreeMap, BTreeSet};
+
+const S: u64 = 1_000_000_000;
+const T0: u64 = chain::GENESIS_NS + S;
+const WEEK: u64 = 7 * 24 * 3600;
+/// smallest offset whose product with 10^9 leaves u64
+const MUL_OVERFLOW: u64 = u64::MAX / S + 1;
+
+#[derive(Clone, Copy, Debug, Serialize, Deserialize, PartialEq, Eq, PartialOrd, Ord)]
+pub enum Fam {
+    Vending(usize),
+    OpenEdition(usize),
+    TokenMerge,
+    Base,
+}
+const OE_NAMES: [&str; 3] = ["open-edition-minter", "open-edition-minter-wl-flex", "open-edition-minter-merkle-wl"];
+impl Fam {
+    fn name(&self) -> &'static str {
+        match self {
+            Fam::Vending(i) => VARIANTS[*i].name,
+            Fam::OpenEdition(i) => OE_NAMES[*i],
+            Fam::TokenMerge => "token-merge-minter",
+            Fam::Base => "base-minter",
+        }
+    }
+    fn coq(&self) -> &'static str {
+        match self {
+            Fam::Vending(_) => "FVending",
+            Fam::OpenEdition(_) => "FOpenEdition",
+            Fam::TokenMerge => "FTokenMerge",
+            Fam::Base => "FBase",
+        }
+    }
+    /// the property gives the base minter no upper bound
+    fn bounded(&self) -> bool {
+        !matches!(self, Fam::Base)
+    }
+    fn all() -> Vec<Fam> {
+        let mut v: Vec<Fam> = (0..6).map(Fam::Vending).collect();
+        v.extend((0..3).map(Fam::OpenEdition));
+        v.push(Fam::TokenMerge);
+        v.push(Fam::Base);
+        v
+    }
+}
+
+/// a requested time, relative to what the contracts hold when the op runs
+#[derive(Clone, Copy, Debug, Serialize, Deserialize, PartialEq, Eq)]
+pub enum T {
+    None,
+    Now(i64),
+    Start(i64),
+    /// stored mint start + offset in force * 10^9 + d (saturating at u64::MAX)
+    Bound(i64),
+    /// clock + offset in force * 10^9 + d
+    NowPlusOffset(i64),
+    Abs(u64),
+}
+#[derive(Clone, Copy, Debug, Serialize, Deserialize, PartialEq, Eq)]
+pub enum Off {
+    Abs(u64),
+    /// the largest offset for which start + offset*10^9 still fits u64, plus d
+    MaxOk(i64),
+}
+
+#[derive(Clone, Debug, Serialize, Deserialize, PartialEq, Eq)]
+pub enum Cop {
+    At { secs: u64, nanos: i64 },
+    Trading { who: String, t: T, funds: u128 },
+    StartTime { who: String, t: T },
+    Offset { offset: Off },
+    Direct { who: String, t: T },
+    NewCreator { who: String, to: String },
+}
+
+#[derive(Clone, Debug, Serialize, Deserialize)]
+pub struct Case {
+    pub fam: Fam,
+    pub updatable: bool,
+    pub start_in_secs: u64,
+    pub offset: Off,
+    pub requested: T,
+    pub ops: Vec<Cop>,
+}
+
+fn sat(base: u128, d: i64) -> u64 {
+    let v = base as i128 + d as i128;
+    v.clamp(0, u64::MAX as i128) as u64
+}
+fn resolve(t: T, now: u64, start: u64, offset: u64) -> Option<u64> {
+    match t {
+        T::None => None,
+        T::Now(d) => Some(sat(now as u128, d)),
+        T::Start(d) => Some(sat(start as u128, d)),
+        T::Bound(d) => Some(sat(start as u128 + offset as u128 * S as u128, d)),
+        T::NowPlusOffset(d) => Some(sat(now as u128 + offset as u128 * S as u128, d)),
+        T::Abs(x) => Some(x),
+    }
+}
+fn resolve_off(o: Off, start: u64) -> u64 {
+    match o {
+        Off::Abs(x) => x,
+        Off::MaxOk(d) => sat(((u64::MAX - start) / S) as u128, d),
+    }
+}
+/// (secs, nanos) relative to T0 for the sale world's op language
+fn rel(t: u64) -> (u64, i64) {
+    if t >= T0 {
+        ((t - T0) / S, ((t - T0) % S) as i64)
+    } else {
+        (0, -((T0 - t) as i64))
+    }
+}
+fn tsj(n: u64) -> Value {
+    json!(n.to_string())
+}
+fn coinv(amount: u128) -> Value {
+    json!({"amount": amount.to_string(), "denom": NATIVE})
+}
+
+// ---------------------------------------------------------------------------------------
+// open-edition / token-merge / base world (creation by JSON through the real factories)
+// ---------------------------------------------------------------------------------------
+pub struct FamWorld {
+    pub app: App,
+    pub fam: Fam,
+    pub factory: Addr,
+    pub minter: Addr,
+    pub collection: Addr,
+}
+const CREATION_FEE: u128 = 5_000;
+
+impl FamWorld {
+    fn factory_params(fam: Fam, minter_code: u64, sg721: u64, offset: u64) -> Value {
+        match fam {
+            Fam::OpenEdition(_) => json!({"params": {
+                "code_id": minter_code, "allowed_sg721_code_ids": [sg721], "frozen": false,
+                "creation_fee": coinv(CREATION_FEE), "min_mint_price": coinv(50), "mint_fee_bps": 1000,
+                "max_trading_offset_secs": offset,
+                "extension": {"max_token_limit": 10000, "max_per_address_limit": 50, "airdrop_mint_fee_bps": 100,
+                              "airdrop_mint_price": coinv(100), "dev_fee_address": "devaddr"}}}),
+            Fam::TokenMerge => json!({"params": {
+                "code_id": minter_code, "allowed_sg721_code_ids": [sg721], "frozen": false,
+                "creation_fee": coinv(CREATION_FEE), "max_trading_offset_secs": offset,
+                "max_token_limit": 10000, "max_per_address_limit": 50,
+                "airdrop_mint_price": coinv(0), "airdrop_mint_fee_bps": 10000, "shuffle_fee": coinv(500)}}),
+            _ => json!({"params": {
+                "code_id": minter_code, "allowed_sg721_code_ids": [sg721], "frozen": false,
+                "creation_fee": coinv(CREATION_FEE), "min_mint_price": coinv(50), "mint_fee_bps": 10000,
+                "max_trading_offset_secs": offset, "extension": null}}),
+        }
+    }
+    fn collection_params(sg721: u64, requested: Option<u64>) -> Value {
+        json!({"code_id": sg721, "name": "Collection", "symbol": "COL",
+            "info": {"creator": CREATOR, "description": "d", "image": "https://example.com/image.png",
+                     "external_link": "https://example.com/external.html", "explicit_content": false,
+                     "start_trading_time": requested.map(tsj),
+                     "royalty_info": {"payment_address": CREATOR, "share": "0.1"}}})
+    }
+    /// the chain and the factory; Err only if the harness itself is wrong
+    pub fn new(fam: Fam, updatable: bool, start: u64, offset: u64, requested: Option<u64>) -> Result<FamWorld, String> {
+        let mut app = chain::new_app();
+        for a in [CREATOR, BUYERS[0], BUYERS[1], STRANGER] {
+            chain::mint_coins(&mut app, a, 1_000_000_000_000, NATIVE);
+        }
+        let minter_code = app.store_code(match fam {
+            Fam::OpenEdition(0) => chain::open_edition_minter(),
+            Fam::OpenEdition(1) => chain::open_edition_minter_wl_flex(),
+            Fam::OpenEdition(_) => chain::open_edition_minter_merkle_wl(),
+            Fam::TokenMerge => chain::token_merge_minter(),
+            _ => chain::base_minter(),
+        });
+        let factory_code = app.store_code(match fam {
+            Fam::OpenEdition(_) => chain::open_edition_factory(),
+            Fam::TokenMerge => chain::token_merge_factory(),
+            _ => chain::base_factory(),
+        });
+        let sg721 = app.store_code(if updatable { chain::sg721_updatable() } else { chain::sg721_base() });
+        let factory = app
+            .instantiate_contract(
+                factory_code,
+                Addr::unchecked(CREATOR),
+                &Self::factory_params(fam, minter_code, sg721, offset),
+                &[],
+                "factory",
+                None,
+            )
+            .map_err(|e| format!("HARNESS factory: {:#}", e))?;
+        let cp = Self::collection_params(sg721, requested);
+        let create = match fam {
+            Fam::OpenEdition(_) => json!({"create_minter": {
+                "init_msg": {
+                    "nft_data": {"nft_data_type": "off_chain_metadata", "extension": null,
+                                 "token_uri": "ipfs://bafybeiavall5udkxkdtdm4djezoxrmfc6o5fn2ug3ymrlvibvwmwydgrkm/1.jpg"},
+                    "start_time": tsj(start), "end_time": null, "mint_price": coinv(100), "per_address_limit": 2,
+                    "num_tokens": 10, "payment_address": null, "whitelist": null},
+                "collection_params": cp}}),
+            Fam::TokenMerge => json!({"create_minter": {
+                "init_msg": {
+                    "base_token_uri": "ipfs://bafybeigi3bwpvyvsmnbj46ra4hyffcxdeaj6ntfk5jpic5mx27x6ih2qvq/images",
+                    "start_time": tsj(start), "num_tokens": 10,
+                    "mint_tokens": [{"collection": "contract9", "amount": 1}], "per_address_limit": 2},
+                "collection_params": cp}}),
+            _ => json!({"create_minter": {"init_msg": null, "collection_params": cp}}),
+        };
+        let r = chain::exec(&mut app, CREATOR, &factory, &create, &[coin(CREATION_FEE, NATIVE)]);
+        let mut w = FamWorld { app, fam, factory, minter: Addr::unchecked("none"), collection: Addr::unchecked("none") };
+        r.map_err(|e| format!("create: {}", e))?;
+        // addresses: factory = contract0, minter = contract1, collection = contract2
+        w.minter = Addr::unchecked("contract1");
+        let c = w.config();
+        let coll = match fam {
+            Fam::Base => c["collection_address"].as_str(),
+            _ => c["sg721_address"].as_str(),
+        };
+        w.collection = Addr::unchecked(coll.ok_or_else(|| "HARNESS: no collection address in the minter config".to_string())?);
+        Ok(w)
+    }
+    fn config(&self) -> Value {
+        self.app.wrap().query_wasm_smart::<Value>(self.minter.clone(), &json!({"config": {}})).unwrap_or(Value::Null)
+    }
+}
+
+// ---------------------------------------------------------------------------------------
+// one interface over both worlds
+// ---------------------------------------------------------------------------------------
+enum W {
+    Sale(Box<SaleWorld>),
+    Fam(Box<FamWorld>),
+}
+impl W {
+    fn app(&self) -> &App {
+        match self {
+            W::Sale(w) => &w.app,
+            W::Fam(w) => &w.app,
+        }
+    }
+    fn app_mut(&mut self) -> &mut App {
+        match self {
+            W::Sale(w) => &mut w.app,
+            W::Fam(w) => &mut w.app,
+        }
+    }
+    fn minter(&self) -> Addr {
+        match self {
+            W::Sale(w) => w.minter.clone(),
+            W::Fam(w) => w.minter.clone(),
+        }
+    }
+    fn collection(&self) -> Addr {
+        match self {
+            W::Sale(w) => w.collection.clone(),
+            W::Fam(w) => w.collection.clone(),
+        }
+    }
+    fn factory(&self) -> Addr {
+        match self {
+            W::Sale(w) => w.factory.clone(),
+            W::Fam(w) => w.factory.clone(),
+        }
+    }
+    fn now(&self) -> u64 {
+        chain::now(self.app())
+    }
+    fn config(&self) -> Value {
+        self.app().wrap().query_wasm_smart::<Value>(self.minter(), &json!({"config": {}})).unwrap()
+    }
+    fn collection_info(&self) -> Value {
+        self.app().wrap().query_wasm_smart::<Value>(self.collection(), &json!({"collection_info": {}})).unwrap()
+    }
+    /// Config.start_time (the base minter has none: its creation time stands in, only to resolve symbolic times)
+    fn start(&self) -> u64 {
+        match self.config()["start_time"].as_str() {
+            Some(s) => s.parse().unwrap(),
+            None => T0,
+        }
+    }
+    fn offset(&self) -> u64 {
+        let p = self.app().wrap().query_wasm_smart::<Value>(self.factory(), &json!({"params": {}})).unwrap();
+        p["params"]["max_trading_offset_secs"].as_u64().unwrap()
+    }
+    /// who the minter treats as admin: Config.admin; base minter: the collection's current creator
+    fn admin(&self) -> String {
+        match self.config()["admin"].as_str() {
+            Some(a) => a.to_string(),
+            None => self.collection_info()["creator"].as_str().unwrap().to_string(),
+        }
+    }
+    fn trading(&self) -> Option<u64> {
+        self.collection_info()["start_trading_time"].as_str().map(|s| s.parse().unwrap())
+    }
+    fn digests(&self) -> (String, String) {
+        (chain::storage_digest(self.app(), &self.minter()), chain::storage_digest(self.app(), &self.collection()))
+    }
+}
+
+pub struct CaseResult {
+    pub coq: Vec<String>,
+    pub steps: u64,
+    pub nontrivial: Vec<String>,
+    pub violations: Vec<(String, String)>,
+    pub hist: BTreeMap<String, u64>,
+    pub summary: Value,
+}
+
+fn checked_bound(start: u64, offset: u64) -> Option<u64> {
+    offset.checked_mul(S).and_then(|x| start.checked_add(x))
+}
+
+pub fn run_case(c: &Case) -> CaseResult {
+    let mut res = CaseResult { coq: vec![], steps: 0, nontrivial: vec![], violations: vec![], hist: BTreeMap::new(), summary: Value::Null };
+    let fam = c.fam;
+    let name = fam.name();
+    let coll_kind = if c.updatable { "sg721-updatable" } else { "sg721-base" };
+    let start0 = T0 + c.start_in_secs * S;
+    let offset0 = resolve_off(c.offset, start0);
+    let requested = resolve(c.requested, T0, start0, offset0);
+    let mut viol = |res: &mut CaseResult, key: &str, what: String| {
+        res.violations.push((format!("C19:{}", key), format!("{} / {}: {}", name, coll_kind, what)));
+    };
+
+    // ---------------- creation ----------------
+    let created: Result<W, String> = match fam {
+        Fam::Vending(i) => {
+            let mut cfg = SaleCfg::basic(i);
+            cfg.updatable_collection = c.updatable;
+            cfg.start_in_secs = c.start_in_secs;
+            cfg.fp.offset_secs = offset0;
+            cfg.start_trading = requested;
+            SaleWorld::new(cfg).map(|w| W::Sale(Box::new(w)))
+        }
+        _ => FamWorld::new(fam, c.updatable, start0, offset0, requested).map(|w| W::Fam(Box::new(w))),
+    };
+    res.steps += 1;
+    let create_ok = created.is_ok();
+    *res.hist.entry(format!("{}:create:{}", name, if create_ok { "ok" } else { "err" })).or_insert(0) += 1;
+    // what the property promises about creation (checked u64 arithmetic, documented 10^9)
+    let base_for_default = if fam.bounded() { start0 } else { T0 };
+    let default = checked_bound(base_for_default, offset0);
+    let stored: Option<Option<u64>> = created.as_ref().ok().map(|w| w.trading());
+    match (&created, requested) {
+        (Err(e), _) if e.starts_with("HARNESS") => {
+            viol(&mut res, "harness-setup", e.clone());
+        }
+        (Ok(_), Some(x)) => {
+            if stored != Some(Some(x)) {
+                viol(&mut res, "create-stored-differs", format!("requested {} at creation, collection shows {:?}", x, stored));
+            }
+            if fam.bounded() {
+                // (when start + offset*10^9 leaves u64 every u64 time is below the bound: the sentence holds;
+                // the code panics there and the model says Err: that is the correspondence's business)
+                match default {
+                    Some(b) if x > b => viol(&mut res, "create-past-bound", format!("created with trading time {} > mint start {} + offset {} s = {}", x, start0, offset0, b)),
+                    _ => {}
+                }
+            }
+        }
+        (Ok(_), None) => match default {
+            None => viol(&mut res, "create-default-overflow", format!("created without a trading time although {} + {} s leaves u64; collection shows {:?}", base_for_default, offset0, stored)),
+            Some(d) => {
+                if stored != Some(Some(d)) {
+                    viol(&mut res, "create-default", format!("no trading time given: expected exactly {} + {} s = {}, collection shows {:?}", base_for_default, offset0, d, stored));
+                }
+            }
+        },
+        (Err(e), r) => {
+            // exactness of the bound: a creation the property allows must not be refused
+            let allowed = match (fam.bounded(), r) {
+                (true, Some(x)) => default.map(|b| x <= b).unwrap_or(false),
+                (true, None) => default.is_some(),
+                (false, Some(_)) => true,
+                (false, None) => default.is_some(),
+            };
+            if allowed {
+                let tail: String = e.chars().rev().take(160).collect::<Vec<_>>().into_iter().rev().collect();
+                viol(&mut res, "valid-creation-rejected", format!("creation with start {}, offset {} s, requested {:?} was refused: ...{}", start0, offset0, r, tail));
+            }
+        }
+    }
+    let stored_coq = match &stored {
+        Some(v) => format!("(Ok {})", coq_opt_n(*v)),
+        None => "Err".to_string(),
+    };
+    res.coq.push(format!("(KCreate {} {} {} {} {} {})", fam.coq(), T0, start0, offset0, coq_opt_n(requested), stored_coq));
+    res.nontrivial.push(format!("{}|{}|create|{}|{:?}|{:?}", name, coll_kind, offset0, c.requested, create_ok));
+    let mut w = match created {
+        Ok(w) => w,
+        Err(_) => {
+            res.summary = json!({"family": name, "collection": coll_kind, "creation": "rejected", "offset": offset0, "requested": format!("{:?}", c.requested)});
+            return res;
+        }
+    };
+
+    // ---------------- history ----------------
+    let (sale_init, sale_bal) = match &mut w {
+        W::Sale(sw) => (sw.init_state_coq(), sw.balances_coq()),
+        _ => (String::new(), String::new()),
+    };
+    let mut sale_steps: Vec<String> = vec![];
+    // the value the property says must be visible: creation value, then the argument of the last accepted update
+    let mut expected: Option<u64> = w.trading();
+    let mut ok_updates = 0u64;
+    for op in &c.ops {
+        let now = w.now();
+        let start = w.start();
+        let offset = w.offset();
+        let admin = w.admin();
+        let before = w.trading();
+        let dig = w.digests();
+        let mut count = |res: &mut CaseResult, kind: &str, ok: bool| {
+            res.steps += 1;
+            *res.hist.entry(format!("{}:{}:{}", name, kind, if ok { "ok" } else { "err" })).or_insert(0) += 1;
+        };
+        match op {
+            Cop::At { secs, nanos } => {
+                let t = ((T0 + secs * S) as i128 + *nanos as i128) as u64;
+                if t > now {
+                    match &mut w {
+                        W::Sale(sw) => {
+                            sw.run(&Op::At { secs: *secs, nanos: *nanos });
+                        }
+                        W::Fam(fw) => chain::set_time(&mut fw.app, t),
+                    }
+                }
+            }
+            Cop::Offset { offset } => {
+                let o = resolve_off(*offset, start);
+                let r = match &mut w {
+                    W::Sale(sw) => {
+                        let out = sw.run(&Op::SudoParams { min_price: None, mint_fee_bps: None, airdrop_price: None, airdrop_fee_bps: None, offset: Some(o), max_pal: None, shuffle_fee: None });
+                        out.ok
+                    }
+                    W::Fam(fw) => {
+                        let ext = match fam {
+                            Fam::OpenEdition(_) => json!({"max_token_limit": null, "max_per_address_limit": null, "min_mint_price": null,
+                                                          "airdrop_mint_fee_bps": null, "airdrop_mint_price": null, "dev_fee_address": null}),
+                            Fam::TokenMerge => json!({"max_token_limit": null, "max_per_address_limit": null, "airdrop_mint_price": null,
+                                                      "airdrop_mint_fee_bps": null, "shuffle_fee": null}),
+                            _ => Value::Null,
+                        };
+                        let msg = match fam {
+                            Fam::TokenMerge => json!({"update_params": {"code_id": null, "add_sg721_code_ids": null, "rm_sg721_code_ids": null,
+                                "frozen": null, "creation_fee": null, "max_trading_offset_secs": o, "extension": ext}}),
+                            _ => json!({"update_params": {"code_id": null, "add_sg721_code_ids": null, "rm_sg721_code_ids": null,
+                                "frozen": null, "creation_fee": null, "min_mint_price": null, "mint_fee_bps": null,
+                                "max_trading_offset_secs": o, "extension": ext}}),
+                        };
+                        let f = fw.factory.clone();
+                        chain::sudo(&mut fw.app, &f, &msg).is_ok()
+                    }
+                };
+                count(&mut res, "sudo_offset", r);
+                if !r || w.offset() != o {
+                    viol(&mut res, "harness-setup", format!("sudo offset {} not applied", o));
+                }
+            }
+            Cop::StartTime { who, t } => {
+                if let Some(tt) = resolve(*t, now, start, offset) {
+                    let ok = match &mut w {
+                        W::Sale(sw) => {
+                            let (secs, nanos) = rel(tt);
+                            let out = sw.run(&Op::UpdateStartTime { who: who.clone(), secs, nanos });
+                            if let Some(s) = out.coq {
+                                sale_steps.push(s);
+                            }
+                            out.ok
+                        }
+                        W::Fam(fw) => {
+                            if fam == Fam::Base {
+                                false
+                            } else {
+                                let m = fw.minter.clone();
+                                chain::exec(&mut fw.app, who, &m, &json!({"update_start_time": tsj(tt)}), &[]).is_ok()
+                            }
+                        }
+                    };
+                    if fam != Fam::Base {
+                        count(&mut res, "update_start_time", ok);
+                    }
+                }
+            }
+            Cop::NewCreator { who, to } => {
+                let msg = json!({"update_collection_info": {"collection_info": {"description": null, "image": null,
+                    "external_link": null, "explicit_content": null, "royalty_info": null, "creator": to}}});
+                let coll = w.collection();
+                let ok = chain::exec(w.app_mut(), who, &coll, &msg, &[]).is_ok();
+                count(&mut res, "new_creator", ok);
+            }
+            Cop::Direct { who, t } => {
+                let tt = resolve(*t, now, start, offset);
+                let coll = w.collection();
+                let msg = json!({"update_start_trading_time": tt.map(tsj)});
+                // "@minter": the call is made in the minter contract's name (cannot happen on a chain; it
+                // exercises the accepting branch of the collection's rule in isolation)
+                let who: &String = &(if who == "@minter" { w.minter().to_string() } else { who.clone() });
+                let r = chain::exec(w.app_mut(), who, &coll, &msg, &[]);
+                let ok = r.is_ok();
+                count(&mut res, "direct_on_collection", ok);
+                let after = w.trading();
+                let is_minter = *who == w.minter().to_string();
+                if is_minter {
+                    if !ok || after != tt {
+                        viol(&mut res, "collection-refuses-minter", format!("UpdateStartTradingTime({:?}) in the minter's name: ok={} collection shows {:?}", tt, ok, after));
+                    }
+                    expected = after;
+                }
+                if ok && !is_minter {
+                    viol(&mut res, "collection-accepts-non-minter", format!("UpdateStartTradingTime({:?}) sent to the collection by {} (not its minter) was accepted", tt, who));
+                    expected = after; // keep looking for independent violations
+                }
+                if !ok && (after != before || w.digests() != dig) {
+                    viol(&mut res, "failed-call-changed-state", format!("rejected direct call by {} changed the collection ({:?} -> {:?})", who, before, after));
+                }
+                res.coq.push(format!("(KDirect {} {} {} {} {})", coq_bool(is_minter), coq_opt_n(tt), coq_opt_n(before), coq_bool(ok), coq_opt_n(after)));
+                res.nontrivial.push(format!("{}|{}|direct|{}|{:?}", name, coll_kind, who, t));
+            }
+            Cop::Trading { who, t, funds } => {
+                let tt = resolve(*t, now, start, offset);
+                let through_sale_world = matches!(w, W::Sale(_)) && *funds == 0;
+                let ok = if through_sale_world {
+                    let W::Sale(sw) = &mut w else { unreachable!() };
+                    let out = sw.run(&Op::UpdateStartTradingTime { who: who.clone(), t: tt.map(rel) });
+                    if let Some(e) = &out.err {
+                        if e.starts_with("STATE-CHANGED-ON-FAILURE") {
+                            viol(&mut res, "failed-call-changed-state", format!("{:?}: {}", op, e));
+                        }
+                    }
+                    if let Some(s) = out.coq {
+                        sale_steps.push(s);
+                    }
+                    out.ok
+                } else {
+                    // (the sale world's op language attaches no funds: a funded call goes straight to the minter)
+                    let m = w.minter();
+                    let f = if *funds > 0 { vec![coin(*funds, NATIVE)] } else { vec![] };
+                    chain::exec(w.app_mut(), who, &m, &json!({"update_start_trading_time": tt.map(tsj)}), &f).is_ok()
+                };
+                count(&mut res, "update_start_trading_time", ok);
+                let after = w.trading();
+                let bound = checked_bound(start, offset);
+                if ok {
+                    ok_updates += 1;
+                    if *who != admin {
+                        viol(&mut res, "update-by-non-admin", format!("{} (admin is {}) set the trading time to {:?}", who, admin, tt));
+                    }
+                    if let Some(x) = tt {
+                        if x < now {
+                            viol(&mut res, "update-in-the-past", format!("trading time {} accepted at clock {} ({} ns earlier)", x, now, now - x));
+                        }
+                        if fam.bounded() {
+                            match bound {
+                                Some(b) if x > b => viol(&mut res, "update-past-bound", format!("trading time {} accepted; mint start {} + offset {} s in force = {} ({} ns earlier)", x, start, offset, b, x - b)),
+                                _ => {}
+                            }
+                        }
+                    }
+                    if after != tt {
+                        viol(&mut res, "update-not-applied", format!("accepted update to {:?}, collection shows {:?}", tt, after));
+                    }
+                    expected = tt;
+                } else {
+                    if after != before || w.digests() != dig {
+                        viol(&mut res, "failed-call-changed-state", format!("rejected {:?} changed state ({:?} -> {:?})", op, before, after));
+                    }
+                    // exactness of the bound: admin, no funds, now <= t <= start + offset*10^9 must be accepted
+                    let allowed = *who == admin
+                        && *funds == 0
+                        && match (fam.bounded(), tt) {
+                            (true, Some(x)) => now <= x && bound.map(|b| x <= b).unwrap_or(false),
+                            (true, None) => bound.is_some(),
+                            (false, Some(x)) => now <= x,
+                            (false, None) => true,
+                        };
+                    if allowed {
+                        viol(&mut res, "valid-request-rejected", format!("admin request {:?} at clock {} with mint start {} and offset {} s was refused", tt, now, start, offset));
+                    }
+                }
+                if !matches!(fam, Fam::Vending(_)) {
+                    res.coq.push(format!(
+                        "(KUpdate {} {} {} {} {} {} {} {} {} {})",
+                        fam.coq(), now, if fam.bounded() { start } else { 0 }, offset, coq_bool(*who == admin), coq_bool(*funds == 0),
+                        coq_opt_n(tt), coq_opt_n(before), coq_bool(ok), coq_opt_n(after)
+                    ));
+                }
+                if *funds == 0 {
+                    res.nontrivial.push(format!("{}|{}|update|{}|{:?}|{}|{}|{}|{}", name, coll_kind, who, t, now, start, offset, ok));
+                }
+            }
+        }
+        // whatever happened: the collection shows the creation value or the last accepted update
+        let vis = w.trading();
+        if vis != expected {
+            viol(&mut res, "visible-value-not-validated", format!("after {:?} the collection shows {:?}; the last value the minter accepted is {:?}", op, vis, expected));
+            expected = vis;
+        }
+        if res.violations.len() > 6 {
+            break;
+        }
+    }
+    if let W::Sale(sw) = &mut w {
+        let sc = w_sale::case_coq(sw, &sale_init, &sale_bal, &sale_steps);
+        res.coq.push(format!("(KSale {})", sc));
+    }
+    res.summary = json!({"family": name, "collection": coll_kind, "offset": offset0, "requested": format!("{:?}", c.requested),
+        "ops": c.ops.len(), "accepted_updates": ok_updates, "first_ops": c.ops.iter().take(6).map(|o| format!("{:?}", o)).collect::<Vec<_>>()});
+    res
+}
+
+// ---------------------------------------------------------------------------------------
+// cases
+// ---------------------------------------------------------------------------------------
+fn trading(who: &str, t: T) -> Cop {
+    Cop::Trading { who: who.into(), t, funds: 0 }
+}
+
+/// creation probes: every guard of the creation rule at -1/0/+1, under every offset class
+fn creation_probes(fam: Fam, updatable: bool) -> Vec<Case> {
+    let mut v = vec![];
+    let mut add = |offset: Off, requested: T, ops: Vec<Cop>| {
+        v.push(Case { fam, updatable, start_in_secs: 3000, offset, requested, ops });
+    };
+    let tail = || vec![trading(CREATOR, T::Bound(0)), trading(CREATOR, T::Bound(1))];
+    if updatable {
+        add(Off::Abs(WEEK), T::None, tail());
+        add(Off::Abs(WEEK), T::Bound(0), vec![]);
+        add(Off::Abs(WEEK), T::Bound(1), vec![]);
+        add(Off::MaxOk(1), T::None, vec![]);
+        return v;
+    }
+    for r in [T::None, T::Now(-1), T::Now(0), T::Start(0), T::Bound(-1), T::Bound(0), T::Bound(1), T::Abs(u64::MAX), T::Abs(0)] {
+        add(Off::Abs(WEEK), r, if r == T::None { tail() } else { vec![] });
+    }
+    for r in [T::None, T::Bound(0), T::Bound(1)] {
+        add(Off::Abs(0), r, vec![]);
+    }
+    for r in [T::None, T::Bound(0), T::Abs(u64::MAX)] {
+        add(Off::MaxOk(0), r, vec![]);
+    }
+    for r in [T::None, T::Start(0)] {
+        add(Off::MaxOk(1), r, vec![]);
+    }
+    for r in [T::None, T::Now(0)] {
+        add(Off::Abs(MUL_OVERFLOW), r, vec![]);
+    }
+    add(Off::Abs(MUL_OVERFLOW - 1), T::None, vec![]);
+    add(Off::Abs(u64::MAX), T::None, vec![]);
+    v
+}
+
+/// the guard-boundary history: every guard of the update rule at -1/0/+1 for admin, with
+/// the other senders, after start moves and offset changes, before and after the mint start
+fn probe_history(fam: Fam, updatable: bool) -> Case {
+    let a = CREATOR;
+    let mut ops = vec![
+        Cop::At { secs: 10, nanos: 0 },
+        trading(a, T::Now(-1)),
+        trading(a, T::Now(0)),
+        trading(a, T::Bound(1)),
+        trading(a, T::Bound(0)),
+        trading(BUYERS[0], T::Now(5)),
+        trading(STRANGER, T::Bound(0)),
+        Cop::Trading { who: a.into(), t: T::Now(0), funds: 1 },
+        Cop::Direct { who: a.into(), t: T::Now(7) },
+        Cop::Direct { who: STRANGER.into(), t: T::None },
+        Cop::Direct { who: BUYERS[0].into(), t: T::Bound(0) },
+        trading(a, T::None),
+        trading(STRANGER, T::None),
+        trading(a, T::Bound(-1)),
+        // mint start 1000 s later: the old bound + 1 ns is now fine, the new bound is exact
+        Cop::StartTime { who: a.into(), t: T::Start(1000 * S as i64) },
+        trading(a, T::Bound(-(1000 * S as i64) + 1)),
+        trading(a, T::Bound(1)),
+        trading(a, T::Bound(0)),
+        // mint start 2000 s earlier: the value just accepted would no longer be
+        Cop::StartTime { who: a.into(), t: T::Start(-(2000 * S as i64)) },
+        trading(a, T::Bound(2000 * S as i64)),
+        trading(a, T::Bound(1)),
+        trading(a, T::Bound(0)),
+        // governance shrinks the offset to one hour
+        Cop::Offset { offset: Off::Abs(3600) },
+        trading(a, T::Bound((WEEK - 3600) as i64 * S as i64)),
+        trading(a, T::Bound(1)),
+        trading(a, T::Bound(0)),
+        // ... grows it to 30 days
+        Cop::Offset { offset: Off::Abs(30 * 24 * 3600) },
+        trading(a, T::Bound(0)),
+        trading(a, T::Bound(1)),
+        // ... to zero: bound = mint start
+        Cop::Offset { offset: Off::Abs(0) },
+        trading(a, T::Start(1)),
+        trading(a, T::Start(0)),
+        trading(a, T::Now(0)),
+        // offsets whose product / sum leaves u64: nothing is accepted, not even None
+        Cop::Offset { offset: Off::Abs(MUL_OVERFLOW) },
+        trading(a, T::None),
+        trading(a, T::Now(0)),
+        Cop::Offset { offset: Off::Abs(u64::MAX) },
+        trading(a, T::Now(1)),
+        Cop::Offset { offset: Off::MaxOk(1) },
+        trading(a, T::None),
+        trading(a, T::Start(0)),
+        // the largest offset that fits
+        Cop::Offset { offset: Off::MaxOk(0) },
+        trading(a, T::Abs(u64::MAX)),
+        trading(a, T::Bound(0)),
+        trading(a, T::None),
+        Cop::Offset { offset: Off::Abs(MUL_OVERFLOW - 1) },
+        trading(a, T::Now(0)),
+        Cop::Offset { offset: Off::Abs(WEEK) },
+        // a new collection creator: admin of the base minter, nobody for the others
+        Cop::NewCreator { who: a.into(), to: BUYERS[1].into() },
+        trading(BUYERS[1], T::Now(3)),
+        trading(a, T::Now(4)),
+        Cop::NewCreator { who: BUYERS[1].into(), to: a.into() },
+        // after the mint start the bound does not move with the clock
+        Cop::At { secs: 5000, nanos: 0 },
+        trading(a, T::NowPlusOffset(0)),
+        trading(a, T::Bound(1)),
+        trading(a, T::Bound(0)),
+        trading(a, T::Now(-1)),
+        trading(a, T::Now(0)),
+        Cop::StartTime { who: a.into(), t: T::Now(100) },
+        // one minute of offset, clock past the bound: no time is acceptable any more, None still is
+        Cop::Offset { offset: Off::Abs(60) },
+        Cop::At { secs: 5000, nanos: 1 },
+        trading(a, T::Bound(0)),
+        Cop::At { secs: 9000, nanos: 0 },
+        trading(a, T::Now(0)),
+        trading(a, T::Bound(0)),
+        trading(a, T::None),
+        Cop::Direct { who: a.into(), t: T::Now(0) },
+    ];
+    if !matches!(fam, Fam::Vending(_)) {
+        ops.push(Cop::Direct { who: "@minter".into(), t: T::Now(9) });
+        ops.push(Cop::Direct { who: "@minter".into(), t: T::None });
+        ops.push(trading(a, T::None));
+    }
+    if updatable {
+        // keep the second collection type cheaper: drop the overflow block
+        ops.retain(|o| !matches!(o, Cop::Offset { offset: Off::Abs(MUL_OVERFLOW) } | Cop::Offset { offset: Off::Abs(u64::MAX) }));
+    }
+    Case { fam, updatable, start_in_secs: 3000, offset: Off::Abs(WEEK), requested: T::Bound(0), ops }
+}
+
+fn gen_case(rng: &mut Rng, fam: Fam, lits: &[u64], thorough: bool) -> Case {
+    let deltas: [i64; 9] = [-1, 0, 1, -(S as i64), S as i64, 2, -2, 1000 * S as i64, -(1000 * S as i64)];
+    let pick_t = |rng: &mut Rng| -> T {
+        let d = *rng.pick(&deltas);
+        match rng.below(12) {
+            0 => T::None,
+            1..=3 => T::Now(d),
+            4..=7 => T::Bound(d),
+            8 => T::Start(d),
+            9 => T::NowPlusOffset(d),
+            10 => T::Abs(*rng.pick(&[0u64, 1, T0, u64::MAX, u64::MAX - 1, chain::GENESIS_NS])),
+            _ => T::Now(rng.below(40 * 24 * 3600) as i64 * S as i64),
+        }
+    };
+    let pick_off = |rng: &mut Rng| -> Off {
+        match rng.below(10) {
+            0 => Off::Abs(0),
+            1 => Off::Abs(1),
+            2 => Off::MaxOk(*rng.pick(&[-1i64, 0, 1])),
+            3 => Off::Abs(*rng.pick(&[MUL_OVERFLOW - 1, MUL_OVERFLOW, u64::MAX])),
+            4 => Off::Abs(*rng.pick(lits)),
+            5 => Off::Abs(rng.below(100 * 24 * 3600)),
+            _ => Off::Abs(*rng.pick(&[60u64, 3600, WEEK, WEEK - 1, WEEK + 1, 30 * 24 * 3600])),
+        }
+    };
+    let start_in_secs = *rng.pick(&[1u64, 100, 3000, 100_000]);
+    let mut ops = vec![];
+    let mut clock = 0u64;
+    let len = if thorough { rng.range(25, 60) } else { rng.range(15, 30) };
+    for _ in 0..len {
+        if rng.chance(1, 4) {
+            clock += *rng.pick(&[1u64, 50, 2000, 90_000, 700_000]);
+            ops.push(Cop::At { secs: clock, nanos: rng.below(3) as i64 });
+        }
+        let who = if rng.chance(3, 4) { CREATOR } else { *rng.pick(&[BUYERS[0], BUYERS[1], STRANGER]) };
+        let op = match rng.below(100) {
+            0..=59 => Cop::Trading { who: who.into(), t: pick_t(rng), funds: if rng.chance(1, 25) { 1 } else { 0 } },
+            60..=71 => Cop::StartTime {
+                who: who.into(),
+                t: match rng.below(3) {
+                    0 => T::Now(rng.below(5000) as i64 * S as i64),
+                    1 => T::Start(*rng.pick(&deltas)),
+                    _ => T::Start(rng.below(100_000) as i64 * S as i64),
+                },
+            },
+            72..=86 => Cop::Offset { offset: pick_off(rng) },
+            87..=96 => Cop::Direct { who: (*rng.pick(&[CREATOR, BUYERS[0], STRANGER])).into(), t: pick_t(rng) },
+            _ => {
+                if rng.chance(1, 2) {
+                    Cop::NewCreator { who: CREATOR.into(), to: BUYERS[1].into() }
+                } else {
+                    Cop::NewCreator { who: BUYERS[1].into(), to: CREATOR.into() }
+                }
+            }
+        };
+        ops.push(op);
+    }
+    let requested = match rng.below(4) {
+        0 => T::None,
+        1 => T::Bound(0),
+        _ => pick_t(rng),
+    };
+    let offset = if rng.chance(2, 3) { Off::Abs(WEEK) } else { pick_off(rng) };
+    Case { fam, updatable: rng.chance(1, 3), start_in_secs, offset, requested, ops }
+}
+
+pub fn run(a: &Args) {
+    let out = OutDir::new(&a.out);
+    let mut rep = Report { property: "C19".into(), tier: a.tier.clone(), seed: a.seed, ..Default::default() };
+    let cases: Vec<Case> = if let Some(p) = &a.replay {
+        #[derive(Deserialize)]
+        struct ReplayFile {
+            case: Case,
+        }
+        let rf: ReplayFile = serde_json::from_str(&std::fs::read_to_string(p).expect("replay file")).expect("replay json");
+        vec![rf.case]
+    } else {
+        let mut rng = Rng::new(a.seed);
+        let lits: Vec<u64> = harvest_literals(&[
+            "contracts/minters/vending-minter/src/contract.rs",
+            "contracts/minters/open-edition-minter/src/contract.rs",
+            "contracts/minters/token-merge-minter/src/contract.rs",
+            "contracts/minters/base-minter/src/contract.rs",
+            "contracts/collections/sg721-base/src/contract.rs",
+        ])
+        .into_iter()
+        .flat_map(|x| [x.saturating_sub(1), x, x + 1])
+        .filter(|x| *x <= u64::MAX as u128)
+        .map(|x| x as u64)
+        .collect();
+        let mut v = vec![];
+        for fam in Fam::all() {
+            for updatable in [false, true] {
+                v.push(probe_history(fam, updatable));
+                v.extend(creation_probes(fam, updatable));
+            }
+        }
+        let per_fam = if a.thorough() { 40 } else { 3 };
+        for fam in Fam::all() {
+            for _ in 0..per_fam {
+                v.push(gen_case(&mut rng, fam, &lits, a.thorough()));
+            }
+        }
+        v
+    };
+    let mut coq_cases = vec![];
+    let mut nviol = 0;
+    let mut distinct = BTreeSet::new();
+    for (i, c) in cases.iter().enumerate() {
+        let r = run_case(c);
+        rep.evaluations += r.steps;
+        for (k, v) in &r.hist {
+            *rep.histogram.entry(k.clone()).or_insert(0) += v;
+        }
+        for k in r.nontrivial {
+            distinct.insert(k);
+        }
+        // violations of the safety sentences first, refusals of allowed requests (exactness of the bound) after
+        let mut vs = r.violations.clone();
+        vs.sort_by_key(|(k, _)| k.contains(":valid-"));
+        for (key, what) in vs.iter().take(3) {
+            nviol += 1;
+            if nviol <= 20 {
+                let body = format!(
+                    "{{\n \"property\": \"C19\",\n \"case\": {},\n \"violation\": {}\n}}\n",
+                    serde_json::to_string(c).unwrap(),
+                    serde_json::to_string(what).unwrap()
+                );
+                let path = out.write_replay(&format!("C19-{}.json", nviol), &body);
+                rep.violations.push(Violation { key: key.clone(), what: what.clone(), replay: path });
+            }
+        }
+        if rep.samples.len() < 3 && (i % 29 == 0) {
+            rep.samples.push(r.summary.clone());
+        }
+        coq_cases.extend(r.coq);
+    }
+    rep.distinct_nontrivial = distinct.len() as u64;
+    rep.rule = "creations through the real factories and UpdateStartTradingTime / UpdateStartTime / sudo offset / direct collection calls on every minter family (6 vending, 3 open-edition, token-merge, base) x {sg721-base, sg721-updatable}; evaluations = contract calls executed (creations, updates, start moves, sudo, direct calls); distinct_nontrivial = distinct (family, collection type, op, symbolic time, clock, stored start, offset in force, outcome) tuples of creations, funds-free updates and direct calls".into();
+    out.write_cases(
+        "C19",
+        "From LP Require Import Num Pay Sg1 Bank MinterVending SaleCorr Trading C19Corr.",
+        "c19_case",
+        "c19_check",
+        &coq_cases,
+        6,
+        &mut rep,
+    );
+    out.finish(&rep);
+    println!("C19 harness: {} cases, {} contract calls, {} coq terms, {} monitor violations", cases.len(), rep.evaluations, coq_cases.len(), nviol);
 }
